@@ -313,6 +313,23 @@ pub fn star(tier: &str, seed: u64) {
         stat("star.generator_reused");
       }
     }
+    // construct, MUTATE, use: `x` is a public field, so a generator built for one measurement can be
+    // pointed at another; everything derived afterwards must belong to the measurement it holds now
+    {
+      let mut mg3 = MessageGenerator::new(SingleMeasurement::new(&m), t, &e);
+      let m2 = if g.chance(1, 2) { let mut v = m.clone(); v.push(1); v } else { let n = gen_len(&mut g, 80); g.blob(n) };
+      mg3.x = SingleMeasurement::new(&m2);
+      let mut r3 = [0u8; 32];
+      mg3.sample_local_randomness(&mut r3);
+      emit(&format!("star.local {} {} {}", hex(&m2), hex(&e), t), &format!("ok {}", hex(&r3)));
+      let w3 = mg3.share_with_local_randomness().expect("swlr");
+      let sb3 = w3.share.to_bytes();
+      emit(
+        &format!("star.swlr {} {} {} {}", hex(&m2), hex(&e), t, hex(&share_x(&sb3))),
+        &format!("ok {},{},{}", hex(&w3.key), hex(&sb3), hex(&w3.tag)),
+      );
+      stat("star.generator_field_reassigned");
+    }
     // WASM-style material
     let w = mg.share_with_local_randomness().expect("swlr");
     let sb = w.share.to_bytes();
